@@ -222,6 +222,12 @@ class SeqRun(object):
                      'status %d for a lone surrogate in %s: %s' % (
                          resp.status, kind, (resp.body or b'')[:200]),
                      op, rbrief)
+        elif resp.status >= 500 and op.get('defect') == 'nan':
+            # known finding as well: 500 instead of 400 for a NaN ratio
+            self.add({'C11'}, 'server-error-nan-ratio',
+                     'status %d for allocation_ratio NaN in %s: %s' % (
+                         resp.status, kind, (resp.body or b'')[:200]),
+                     op, rbrief)
         elif resp.status >= 500:
             self.add(tags_status | {'C15'}, 'server-error',
                      'status %d: %s' % (resp.status, (resp.body or b'')[:300]),
